@@ -706,6 +706,13 @@ mod verif_cex_history {
             }
             m.items.insert(b"bulk".to_vec(), M::B(bm)); m.next_int = 1;
             read_all(&db, &m, &format!("{} (first transaction after the bulk commit)", what))?;
+            // a SECOND bulk commit: the file is extended again, this time from a length far beyond the first extension step
+            {
+                let tx = db.tx(true).unwrap();
+                { let b = tx.get_bucket("bulk").unwrap(); for i in 0..n { let v = vec![(i % 241) as u8; vlen]; b.put(format!("s{:06}", i), v.clone()).unwrap(); if let Some(M::B(bm)) = m.items.get_mut(&b"bulk".to_vec()) { bm.items.insert(format!("s{:06}", i).into_bytes(), M::Kv(v)); bm.next_int += 1; } } }
+                tx.commit().map_err(|e| format!("{}: the SECOND bulk commit (same size again) fails: {:?}", what, e))?;
+            }
+            read_all(&db, &m, &format!("{} (first transaction after a SECOND bulk commit of the same size)", what))?;
             { let tx = db.tx(true).unwrap(); tx.get_bucket("bulk").unwrap().put("after", "x").unwrap(); tx.commit().map_err(|e| format!("{}: a later commit fails: {:?}", what, e))?; }
             if let Some(M::B(bm)) = m.items.get_mut(&b"bulk".to_vec()) { bm.items.insert(b"after".to_vec(), M::Kv(b"x".to_vec())); bm.next_int += 1; }
             db.check().map_err(|e| format!("{}: DB::check() fails: {:?}", what, e))?;
@@ -724,7 +731,7 @@ mod verif_cex_history {
             match std::panic::catch_unwind(|| run_bulk_load_shape(ps, n, vlen)) {
                 Ok(Ok(())) => {}
                 Ok(Err(e)) => { println!("CEX history (C01/C16): {}", e); panic!("bulk load mismatch"); }
-                Err(_) => { println!("CEX history (C01 nothing panics): bulk-load shape: page size {}, ONE transaction puts {} values of {} bytes and commits; a later transaction on the same handle (or the commit itself) panicked", ps, n, vlen); panic!("bulk load panic"); }
+                Err(_) => { println!("CEX history (C01 nothing panics): bulk-load shape: page size {}, a transaction puts {} values of {} bytes and commits, a second one does the same again; a commit or a later transaction on the same handle panicked", ps, n, vlen); panic!("bulk load panic"); }
             }
         }
     }
